@@ -313,6 +313,8 @@ func outLast() any                               { return nil }
 //@ ensures [C14 C09] operand: ncalls(exec.executeItem) == 1 && callarg[ast.Node](exec.executeItem, "node") == node && callarg[any](exec.executeItem, "value") == value
 //@ ensures [C14 C08] failure-reported: callret[resultStatus](exec.executeItem, 0) == statusFailed ==> r1 != nil
 //@ ensures [C20 C08] hard-error-kept: callret[error](exec.executeItem, 1) != nil ==> r1 == callret[error](exec.executeItem, 1)
+//@ ensures [C14] local-a-single-item-is-converted: r1 == nil ==> len(found.list) == 1 && ncalls(getJSONInt32) == 1 && callarg[any](getJSONInt32, "val") == found.list[0] && r0 == callret[int](getJSONInt32, 0)
+//@ ensures [C14] local-anything-but-a-single-item-is-an-error: callret[resultStatus](exec.executeItem, 0) != statusFailed && len(found.list) != 1 ==> r1 != nil && errIs(r1, ErrVerbose) && ncalls(getJSONInt32) == 0
 //@ ensures [C05 C14] own-errors-suppressible: r1 != nil && r1 != callret[error](exec.executeItem, 1) && ncalls(getJSONInt32) == 0 ==> errIs(r1, ErrVerbose) && !errIs(r1, ErrInvalid)
 
 //@ func (*Executor).execSubscript
@@ -356,6 +358,9 @@ func outLast() any                               { return nil }
 //@ loop 1 invariant [C08 C14] earlier-subscripts-emitted: is[[]any](value) && ncalls(exec.execSubscript) >= 1 && callret[int](exec.execSubscript, 0) <= callret[int](exec.execSubscript, 1) && array[callret[int](exec.execSubscript, 1)] != nil ==> ncalls(exec.executeNextItem) >= 1 && callarg[any](exec.executeNextItem, "value") == array[callret[int](exec.execSubscript, 1)]
 //@ atcall execSubscript assert [C08 C14] items-before-next-subscript: is[[]any](value) && ncalls(exec.execSubscript) >= 1 && callret[int](exec.execSubscript, 0) <= callret[int](exec.execSubscript, 1) && array[callret[int](exec.execSubscript, 1)] != nil ==> ncalls(exec.executeNextItem) >= 1 && callarg[any](exec.executeNextItem, "value") == array[callret[int](exec.execSubscript, 1)]
 //@ atcall executeNextItem assert [C14] element: arg_value == array[index] && arg_found == found
+//@ loop 1 invariant [C14 C07] every-subscript-evaluated: ncalls(exec.execSubscript) == rangeindex + 1
+//@ loop 2 invariant [C14 C07] every-subscript-evaluated: ncalls(exec.execSubscript) == rangeindex + 1
+//@ ensures [C14 C07 C01] not-found-means-every-subscript-was-evaluated: is[[]any](value) && r0 == statusNotFound && r1 == nil ==> ncalls(exec.execSubscript) == len(node.Subscripts())
 //@ loop 1 invariant [C14 C09 C06] ok-comes-from-the-continuation: res == statusOK ==> ncalls(exec.executeNextItem) >= 1
 //@ loop 2 invariant [C14 C09 C06] ok-comes-from-the-continuation: res == statusOK ==> ncalls(exec.executeNextItem) >= 1
 //@ ensures [C14 C09 C06 C01] selected-elements-go-on-unless-the-path-ends-here: is[[]any](value) && r0 == statusOK && !(node.Next() == nil && found == nil) ==> ncalls(exec.executeNextItem) >= 1
